@@ -255,6 +255,12 @@ pub struct Cfg {
     /// capture the job-market event log of this run (requires --par 1)
     #[serde(default)]
     pub market_log: bool,
+    /// run without a visitor (huge / unbounded state spaces)
+    #[serde(default)]
+    pub no_visitor: bool,
+    /// simulation only: run a second time with the same seed and record its chooser log too
+    #[serde(default)]
+    pub replay_check: bool,
 }
 
 pub fn finish_of(f: &Finish) -> HasDiscoveries {
@@ -489,8 +495,10 @@ pub fn run_one(g: &Graph, cfg: &Cfg) -> Value {
         .clone()
         .checker()
         .threads(cfg.threads)
-        .visitor(vis)
         .finish_when(finish_of(&cfg.finish));
+    if !cfg.no_visitor {
+        b = b.visitor(vis);
+    }
     if cfg.target_states > 0 {
         b = b.target_state_count(cfg.target_states);
     }
@@ -541,6 +549,22 @@ pub fn run_one(g: &Graph, cfg: &Cfg) -> Value {
     let market: Vec<Value> = if cfg.market_log { crate::hooks::stop_capture() } else { vec![] };
     let visits = std::mem::take(&mut *vlog.lock().unwrap());
     let chooser = std::mem::take(&mut *clog.lock().unwrap());
+    // seed replay: the same configuration once more, chooser log only
+    let mut chooser2: Vec<Value> = vec![];
+    if cfg.replay_check && cfg.strategy == "sim" {
+        let clog2 = Arc::new(Mutex::new(Vec::new()));
+        let mut b2 = model.clone().checker().threads(cfg.threads).finish_when(finish_of(&cfg.finish));
+        if cfg.target_states > 0 {
+            b2 = b2.target_state_count(cfg.target_states);
+        }
+        if cfg.target_depth > 0 {
+            b2 = b2.target_max_depth(cfg.target_depth);
+        }
+        let _ = catch_unwind(AssertUnwindSafe(|| {
+            observe(b2.spawn_simulation(cfg.seed, LogChooser { log: Arc::clone(&clog2) }), cfg, &model)
+        }));
+        chooser2 = std::mem::take(&mut *clog2.lock().unwrap());
+    }
     let done = match obs {
         Some(o) => json!({
             "joined": o.joined, "join_panicked": o.join_panicked, "is_done": o.is_done,
@@ -553,7 +577,7 @@ pub fn run_one(g: &Graph, cfg: &Cfg) -> Value {
             "max_depth": 0, "discoveries": [], "disc_panicked": false, "assert_panicked": false,
             "handles_left": 0, "wall_ms": 0, "spawn_panicked": spawn_panicked}),
     };
-    json!({"cfg": cfg, "visits": visits, "chooser": chooser, "done": done, "market": market})
+    json!({"cfg": cfg, "visits": visits, "chooser": chooser, "chooser2": chooser2, "done": done, "market": market})
 }
 
 static RID: AtomicU64 = AtomicU64::new(0);
@@ -605,4 +629,57 @@ pub fn main_graphs(inp: &str, out: &str, par: usize) {
         h.join().unwrap();
     }
     outf.lock().unwrap().flush().unwrap();
+}
+
+/// HasDiscoveries::matches on every (property list, discovery set, variant) within bounds (C12)
+pub fn main_matches(out: &str) {
+    let mut o = std::io::BufWriter::new(std::fs::File::create(out).expect("create out"));
+    let kinds = ["always", "sometimes", "eventually"];
+    let names = ["a", "b", "c"];
+    for n in 0..=3usize {
+        // all kind assignments
+        let mut assigns: Vec<Vec<usize>> = vec![vec![]];
+        for _ in 0..n {
+            let mut nx = vec![];
+            for a in &assigns {
+                for k in 0..3 {
+                    let mut b = a.clone();
+                    b.push(k);
+                    nx.push(b);
+                }
+            }
+            assigns = nx;
+        }
+        for a in assigns {
+            let props: Vec<PropSpec> = a
+                .iter()
+                .enumerate()
+                .map(|(i, k)| PropSpec { kind: kinds[*k].to_string(), name: names[i].to_string(), sat: vec![], mode: "all".into(), m: 0, r: 0 })
+                .collect();
+            let g = Graph { id: "m".into(), family: "table".into(), n: 1, init: vec![1], succ: vec![vec![]], inb: vec![true],
+                            props: props.clone(), params: vec![], poison: 0, rep: vec![] };
+            let model = TableModel::new(g);
+            let plist = model.properties();
+            for dmask in 0..(1u32 << n) {
+                let disc: BTreeSet<&'static str> = (0..n).filter(|i| dmask >> i & 1 == 1).map(|i| leak(names[i])).collect();
+                let mut variants: Vec<Finish> = ["All", "Any", "AnyFailures", "AllFailures"]
+                    .iter()
+                    .map(|v| Finish { variant: v.to_string(), names: vec![] })
+                    .collect();
+                for smask in 0..(1u32 << n) {
+                    let ns: Vec<String> = (0..n).filter(|i| smask >> i & 1 == 1).map(|i| names[i].to_string()).collect();
+                    variants.push(Finish { variant: "AllOf".into(), names: ns.clone() });
+                    variants.push(Finish { variant: "AnyOf".into(), names: ns });
+                }
+                for f in variants {
+                    let m = finish_of(&f).matches(&disc, &plist);
+                    let rec = json!({"props": props.iter().map(|p| json!({"kind": p.kind, "name": p.name})).collect::<Vec<_>>(),
+                        "disc": disc.iter().collect::<Vec<_>>(), "finish": f, "matches": m});
+                    serde_json::to_writer(&mut o, &rec).unwrap();
+                    o.write_all(b"\n").unwrap();
+                }
+            }
+        }
+    }
+    o.flush().unwrap();
 }
